@@ -11,6 +11,7 @@ import "sync"
 // detector and each result is compared with its solo result.
 func HarnessC15Concurrent() {
 	c16ErrorPage = "err"
+	fresh := c16Tree() // serves the second call alone: its result is the second call's solo result
 	tpl := c16Tree()
 	s := string([]byte{vByte("s")})
 	d1 := vInt64("d1")
@@ -23,6 +24,7 @@ func HarnessC15Concurrent() {
 	if op2 < 2 {
 		n2 = vChoice("name2", c16Names)
 	}
+	alone2 := c16Op(fresh, op2, n2, d2, s)
 	vFreeze()
 	vShare(tpl) // the loaded Template and every AST it holds
 	vPhase(1)
@@ -32,17 +34,24 @@ func HarnessC15Concurrent() {
 	vPhase(0)
 	vCover("solo-results")
 	if vNative() {
+		vAssert(c16Same(solo2, alone2), "a-call-that-runs-after-another-returns-its-solo-result")
 		for i := 0; i < 60; i++ {
+			t := tpl
+			if i < 25 {
+				t = c16Tree() // a freshly loaded Template: the two calls are the first ones it serves
+			}
 			var a, b c16Result
 			var wg sync.WaitGroup
 			wg.Add(2)
-			go func() { defer wg.Done(); a = c16Op(tpl, op1, n1, d1, s) }()
-			go func() { defer wg.Done(); b = c16Op(tpl, op2, n2, d2, s) }()
+			go func() { defer wg.Done(); a = c16Op(t, op1, n1, d1, s) }()
+			go func() { defer wg.Done(); b = c16Op(t, op2, n2, d2, s) }()
 			wg.Wait()
 			vAssert(c16Same(a, solo1) && c16Same(b, solo2), "concurrent-call-returns-its-solo-result")
 		}
 		return
 	}
+	// one legal schedule of the two calls is "first one, then the other": the second call returns what it returns alone
+	vAssert(c16Same(solo2, alone2), "a-call-that-runs-after-another-returns-its-solo-result")
 	// the pair is free of conflicting accesses: no location stored to by one call is read or stored to by the other
 	vAssert(vPhaseConflicts() == 0, "the-two-calls-have-no-conflicting-access-to-shared-state")
 	if vSharedWrites() == 0 {
